@@ -129,6 +129,551 @@ theorem WF.node_length_lt {q : BitStr} {l r : CTree} (hwf : (node q l r).WF)
   simp at this
   omega
 
+/-! ### the honest walk -/
+
+theorem foldUp_path (c : Cfg) (x : BitStr) (a : CTree) :
+    foldUp c ⟨NodeLabel.ofBits (a.path c x).1.lbl, (a.path c x).1.azks c .withLeafEpoch, (a.path c x).2⟩
+      = (a.azks c .withLeafEpoch, NodeLabel.ofBits a.lbl) := by
+  induction a with
+  | leaf q v e => rfl
+  | node q l r ihl ihr =>
+    unfold path
+    split
+    · rfl
+    · split
+      · simp only [foldUp_cons, ihl]
+        rfl
+      · rfl
+    · split
+      · simp only [foldUp_cons, ihr]
+        rfl
+      · rfl
+
+theorem path_sub (c : Cfg) (x : BitStr) (a : CTree) : Sub (a.path c x).1 a := by
+  induction a with
+  | leaf q v e => exact Sub.refl
+  | node q l r ihl ihr =>
+    unfold path
+    split
+    · exact Sub.refl
+    · split
+      · exact Sub.left _ _ ihl
+      · exact Sub.refl
+    · split
+      · exact Sub.right _ _ ihr
+      · exact Sub.refl
+
+theorem path_prefix (c : Cfg) (x : BitStr) (a : CTree) (h : a.lbl <+: x) : (a.path c x).1.lbl <+: x := by
+  induction a with
+  | leaf q v e => exact h
+  | node q l r ihl ihr =>
+    unfold path
+    split
+    · exact h
+    · split
+      · rename_i hp; exact ihl ((BitStr.isPrefix_iff _ _).mp hp)
+      · exact h
+    · split
+      · rename_i hp; exact ihr ((BitStr.isPrefix_iff _ _).mp hp)
+      · exact h
+
+/-- where the walk stops at an interior node, neither child's label is a prefix of the query -/
+theorem path_stop (c : Cfg) (x : BitStr) (a : CTree) (hwf : a.WF) {q : BitStr} {l r : CTree}
+    (h : (a.path c x).1 = node q l r) : ¬ l.lbl <+: x ∧ ¬ r.lbl <+: x := by
+  induction a with
+  | leaf q' v e => simp [path] at h
+  | node q' l' r' ihl ihr =>
+    have stop : ∀ (hx : x[q'.length]? ≠ some false ∨ ¬ l'.lbl <+: x)
+        (hx' : x[q'.length]? ≠ some true ∨ ¬ r'.lbl <+: x), node q' l' r' = node q l r →
+        ¬ l.lbl <+: x ∧ ¬ r.lbl <+: x := by
+      intro hx hx' e
+      injection e with e1 e2 e3
+      subst e1 e2 e3
+      constructor
+      · intro hp
+        have := BitStr.prefix_snoc_getElem? (hwf.1.trans hp)
+        rcases hx with hx | hx
+        · exact hx this
+        · exact hx hp
+      · intro hp
+        have := BitStr.prefix_snoc_getElem? (hwf.2.1.trans hp)
+        rcases hx' with hx' | hx'
+        · exact hx' this
+        · exact hx' hp
+    unfold path at h
+    split at h
+    · rename_i hn
+      exact stop (by simp [hn]) (by simp [hn]) h
+    · rename_i hn
+      split at h
+      · exact ihl hwf.2.2.1 h
+      · rename_i hp
+        exact stop (Or.inr (by rwa [← BitStr.isPrefix_iff])) (by simp [hn]) h
+    · rename_i hn
+      split at h
+      · exact ihr hwf.2.2.2 h
+      · rename_i hp
+        exact stop (by simp [hn]) (Or.inr (by rwa [← BitStr.isPrefix_iff])) h
+
+/-- the walk towards a leaf of a well-formed tree ends at that leaf -/
+theorem path_leaf (c : Cfg) (a : CTree) (hwf : a.WF) (lf : Leaf) (h : lf ∈ a.leaves) :
+    (a.path c lf.lbl).1 = leaf lf.lbl lf.value lf.ep := by
+  induction a with
+  | leaf q v e =>
+    simp [leaves] at h
+    subst h
+    rfl
+  | node q l r ihl ihr =>
+    simp only [leaves, List.mem_append] at h
+    unfold path
+    rcases h with h | h
+    · have hp := WF.leaf_prefix hwf.2.2.1 h
+      have hb := BitStr.prefix_snoc_getElem? (hwf.1.trans hp)
+      simp only [hb, (BitStr.isPrefix_iff _ _).mpr hp, if_true]
+      exact ihl hwf.2.2.1 h
+    · have hp := WF.leaf_prefix hwf.2.2.2 h
+      have hb := BitStr.prefix_snoc_getElem? (hwf.2.1.trans hp)
+      simp only [hb, (BitStr.isPrefix_iff _ _).mpr hp, if_true]
+      exact ihr hwf.2.2.2 h
+
 end CTree
+
+/-! ### the honest walk from the root; completeness of the fold -/
+namespace CRoot
+
+theorem value_some_left (c : Cfg) (m : HashMode) (a : CTree) (r : Option CTree) :
+    value c m ⟨some a, r⟩ = c.parentHash (a.azks c m) (NodeLabel.ofBits a.lbl) (childValue c m r) (childLabel c r) := by
+  cases r <;> rfl
+
+theorem value_some_right (c : Cfg) (m : HashMode) (l : Option CTree) (b : CTree) :
+    value c m ⟨l, some b⟩ = c.parentHash (childValue c m l) (childLabel c l) (b.azks c m) (NodeLabel.ofBits b.lbl) := by
+  cases l <;> rfl
+
+/-- the child slot on the side of bit `b`, the other slot, and the direction recorded -/
+def side (t : CRoot) (b : Bool) : Option CTree × Option CTree × Direction :=
+  if b then (t.r, t.l, Direction.right) else (t.l, t.r, Direction.left)
+
+theorem path_nil (c : Cfg) (t : CRoot) : t.path c [] = (none, []) := rfl
+
+theorem path_cons_none (c : Cfg) (t : CRoot) (b : Bool) (x : BitStr) (h : (t.side b).1 = none) :
+    t.path c (b :: x) = (none, []) := by
+  simp only [side] at h
+  simp only [path, h]
+
+theorem path_cons_some (c : Cfg) (t : CRoot) (b : Bool) (x : BitStr) (a : CTree) (h : (t.side b).1 = some a) :
+    t.path c (b :: x) =
+      if BitStr.isPrefix a.lbl (b :: x) then
+        (some (a.path c (b :: x)).1,
+          ⟨NodeLabel.root, element c (t.side b).2.1, (t.side b).2.2⟩ :: (a.path c (b :: x)).2)
+      else (none, []) := by
+  simp only [side] at h
+  simp only [path, h, side]
+
+theorem foldStep_side (c : Cfg) (t : CRoot) (b : Bool) (a : CTree) (h : (t.side b).1 = some a) :
+    foldStep c (a.azks c .withLeafEpoch, NodeLabel.ofBits a.lbl)
+        ⟨NodeLabel.root, element c (t.side b).2.1, (t.side b).2.2⟩
+      = (t.value c .withLeafEpoch, NodeLabel.root) := by
+  obtain ⟨tl, tr⟩ := t
+  cases b
+  · simp only [side, Bool.false_eq_true, if_false] at h ⊢
+    subst h
+    rw [value_some_left]; rfl
+  · simp only [side, if_true] at h ⊢
+    subst h
+    rw [value_some_right]; rfl
+
+theorem foldUp_lcpProof (c : Cfg) (t : CRoot) (x : BitStr) :
+    foldUp c (t.lcpProof c x) = (t.value c .withLeafEpoch, NodeLabel.root) := by
+  cases x with
+  | nil => rfl
+  | cons b x =>
+    cases hs : (t.side b).1 with
+    | none => simp only [lcpProof, path_cons_none c t b x hs]; rfl
+    | some a =>
+      by_cases hp : BitStr.isPrefix a.lbl (b :: x) = true
+      · simp only [lcpProof, path_cons_some c t b x a hs, hp, if_true, foldUp_cons,
+          CTree.foldUp_path, foldStep_side c t b a hs]
+      · simp only [lcpProof, path_cons_some c t b x a hs, hp]; rfl
+
+end CRoot
+/-! ### soundness of the fold -/
+
+theorem foldStep_fst_left (c : Cfg) (st : Dig × NodeLabel) (sp : SiblingProof) (h : sp.direction = .left) :
+    (foldStep c st sp).1 = c.parentHash st.1 st.2 sp.sibling.value sp.sibling.label := by
+  simp [foldStep, h]
+
+theorem foldStep_fst_right (c : Cfg) (st : Dig × NodeLabel) (sp : SiblingProof) (h : sp.direction = .right) :
+    (foldStep c st sp).1 = c.parentHash sp.sibling.value sp.sibling.label st.1 st.2 := by
+  simp [foldStep, h]
+
+/-- the digest after at least one fold step is a parent hash one of whose sides is the previous state -/
+theorem foldStep_fst_cases (c : Cfg) (st : Dig × NodeLabel) (sp : SiblingProof) :
+    (∃ v l, (foldStep c st sp).1 = c.parentHash st.1 st.2 v l) ∨
+    (∃ v l, (foldStep c st sp).1 = c.parentHash v l st.1 st.2) := by
+  cases h : sp.direction
+  · exact Or.inl ⟨_, _, foldStep_fst_left c st sp h⟩
+  · exact Or.inr ⟨_, _, foldStep_fst_right c st sp h⟩
+
+namespace CTree
+
+/-- soundness below a subtree: if folding sibling proofs from `(v, lbl)` reaches the digest of `a`,
+then `(lbl, v)` is the element of a subtree of `a` -/
+theorem sound_sub (c : Cfg) (hc : c.Lawful) (lbl : NodeLabel) (v : Dig) (sps : List SiblingProof) :
+    ∀ a : CTree, foldUp c ⟨lbl, v, sps⟩ = (a.azks c .withLeafEpoch, NodeLabel.ofBits a.lbl) →
+      ∃ s, Sub s a ∧ lbl = NodeLabel.ofBits s.lbl ∧ v = s.azks c .withLeafEpoch := by
+  induction sps with
+  | nil =>
+    intro a h
+    rw [foldUp_nil] at h
+    injection h with h1 h2
+    exact ⟨a, Sub.refl, h2, h1⟩
+  | cons sp rest ih =>
+    intro a h
+    rw [foldUp_cons] at h
+    have h1 := congrArg Prod.fst h
+    simp only at h1
+    cases a with
+    | leaf q w e =>
+      exfalso
+      rcases foldStep_fst_cases c (foldUp c ⟨lbl, v, rest⟩) sp with ⟨v', l', e'⟩ | ⟨v', l', e'⟩ <;>
+      · rw [e'] at h1
+        exact hc.leaf_ne_parent _ _ _ _ _ _ h1.symm
+    | node q l r =>
+      simp only [azks] at h1
+      rcases foldStep_fst_cases c (foldUp c ⟨lbl, v, rest⟩) sp with ⟨v', l', e'⟩ | ⟨v', l', e'⟩
+      · rw [e'] at h1
+        obtain ⟨a1, a2, -, -⟩ := hc.parent_inj _ _ _ _ _ _ _ _ h1
+        obtain ⟨s, hs, hl, hv⟩ := ih l (Prod.ext a1 a2)
+        exact ⟨s, Sub.left _ _ hs, hl, hv⟩
+      · rw [e'] at h1
+        obtain ⟨-, -, a1, a2⟩ := hc.parent_inj _ _ _ _ _ _ _ _ h1
+        obtain ⟨s, hs, hl, hv⟩ := ih r (Prod.ext a1 a2)
+        exact ⟨s, Sub.right _ _ hs, hl, hv⟩
+
+end CTree
+
+namespace CRoot
+
+/-- `a` is a child of the root -/
+def Child (t : CRoot) (a : CTree) : Prop := t.l = some a ∨ t.r = some a
+
+theorem value_eq_parent (c : Cfg) (m : HashMode) (t : CRoot) (h : t.l ≠ none ∨ t.r ≠ none) :
+    t.value c m = c.parentHash (childValue c m t.l) (childLabel c t.l) (childValue c m t.r) (childLabel c t.r) := by
+  obtain ⟨tl, tr⟩ := t
+  cases tl <;> cases tr <;> simp_all [value]
+
+theorem value_empty (c : Cfg) (m : HashMode) (t : CRoot) (h : t.l = none ∧ t.r = none) :
+    t.value c m = c.emptyRootValue := by
+  obtain ⟨tl, tr⟩ := t
+  obtain ⟨rfl, rfl⟩ := h
+  rfl
+
+/-- soundness below a child slot of the root -/
+theorem sound_slot (c : Cfg) (hc : c.Lawful) (o : Option CTree) (lbl : NodeLabel) (v : Dig)
+    (sps : List SiblingProof)
+    (h : foldUp c ⟨lbl, v, sps⟩ = (childValue c .withLeafEpoch o, childLabel c o)) :
+    (o = none ∧ lbl = c.emptyLabel ∧ v = c.emptyNodeHash) ∨
+    (∃ a s, o = some a ∧ CTree.Sub s a ∧ lbl = NodeLabel.ofBits s.lbl ∧ v = s.azks c .withLeafEpoch) := by
+  cases o with
+  | some a =>
+    obtain ⟨s, hs, hl, hv⟩ := CTree.sound_sub c hc lbl v sps a h
+    exact Or.inr ⟨a, s, rfl, hs, hl, hv⟩
+  | none =>
+    left
+    cases sps with
+    | nil =>
+      rw [foldUp_nil] at h
+      injection h with h1 h2
+      exact ⟨rfl, h2, h1⟩
+    | cons sp rest =>
+      exfalso
+      rw [foldUp_cons] at h
+      have h1 := congrArg Prod.fst h
+      simp only [childValue] at h1
+      rcases foldStep_fst_cases c (foldUp c ⟨lbl, v, rest⟩) sp with ⟨v', l', e'⟩ | ⟨v', l', e'⟩ <;>
+      · rw [e'] at h1
+        exact hc.parent_ne_emptyNode _ _ _ _ h1
+
+/-- what a proof whose fold reaches the root value can be about -/
+theorem sound_cases (c : Cfg) (hc : c.Lawful) (t : CRoot) (π : MembershipProof)
+    (h : (foldUp c π).1 = t.value c .withLeafEpoch) :
+    (π.siblingProofs = [] ∧ π.hashVal = t.value c .withLeafEpoch) ∨
+    (∃ o, (o = t.l ∨ o = t.r) ∧
+      ((o = none ∧ π.label = c.emptyLabel ∧ π.hashVal = c.emptyNodeHash) ∨
+       (∃ a s, o = some a ∧ CTree.Sub s a ∧ π.label = NodeLabel.ofBits s.lbl ∧
+          π.hashVal = s.azks c .withLeafEpoch))) := by
+  obtain ⟨lbl, v, sps⟩ := π
+  cases sps with
+  | nil => exact Or.inl ⟨rfl, h⟩
+  | cons sp rest =>
+    right
+    rw [foldUp_cons] at h
+    by_cases he : t.l = none ∧ t.r = none
+    · exfalso
+      rw [value_empty c _ t he] at h
+      rcases foldStep_fst_cases c (foldUp c ⟨lbl, v, rest⟩) sp with ⟨v', l', e'⟩ | ⟨v', l', e'⟩ <;>
+      · rw [e'] at h
+        exact hc.parent_ne_emptyRoot _ _ _ _ h
+    · have he' : t.l ≠ none ∨ t.r ≠ none := by
+        by_cases h1 : t.l = none
+        · exact Or.inr (fun h2 => he ⟨h1, h2⟩)
+        · exact Or.inl h1
+      rw [value_eq_parent c _ t he'] at h
+      rcases foldStep_fst_cases c (foldUp c ⟨lbl, v, rest⟩) sp with ⟨v', l', e'⟩ | ⟨v', l', e'⟩
+      · rw [e'] at h
+        obtain ⟨a1, a2, -, -⟩ := hc.parent_inj _ _ _ _ _ _ _ _ h
+        exact ⟨t.l, Or.inl rfl, sound_slot c hc t.l lbl v rest (Prod.ext a1 a2)⟩
+      · rw [e'] at h
+        obtain ⟨-, -, a1, a2⟩ := hc.parent_inj _ _ _ _ _ _ _ _ h
+        exact ⟨t.r, Or.inr rfl, sound_slot c hc t.r lbl v rest (Prod.ext a1 a2)⟩
+
+end CRoot
+/-! ### the walk from a well-formed root -/
+namespace CRoot
+
+theorem child_iff_side {t : CRoot} {a : CTree} : t.Child a ↔ ∃ b, (t.side b).1 = some a := by
+  constructor
+  · rintro (h | h)
+    · exact ⟨false, by simpa [side] using h⟩
+    · exact ⟨true, by simpa [side] using h⟩
+  · rintro ⟨b, h⟩
+    cases b
+    · exact Or.inl (by simpa [side] using h)
+    · exact Or.inr (by simpa [side] using h)
+
+theorem side_other (t : CRoot) (b : Bool) : (t.side b).2.1 = (t.side (!b)).1 := by
+  cases b <;> rfl
+
+theorem WF.side {t : CRoot} (hwf : t.WF) {b : Bool} {a : CTree} (h : (t.side b).1 = some a) :
+    [b] <+: a.lbl ∧ a.WF := by
+  cases b
+  · exact hwf.1 a (by simpa [CRoot.side] using h)
+  · exact hwf.2 a (by simpa [CRoot.side] using h)
+
+theorem WF.child {t : CRoot} (hwf : t.WF) {a : CTree} (h : t.Child a) : a.WF := by
+  obtain ⟨b, hb⟩ := child_iff_side.mp h
+  exact (hwf.side hb).2
+
+theorem mem_leaves {t : CRoot} {lf : Leaf} : lf ∈ t.leaves ↔ ∃ a, t.Child a ∧ lf ∈ a.leaves := by
+  obtain ⟨tl, tr⟩ := t
+  cases tl <;> cases tr <;> simp [leaves, Child]
+
+/-- a child of a well-formed root whose label is a prefix of `b :: x` sits on side `b` -/
+theorem WF.side_of_prefix {t : CRoot} (hwf : t.WF) {a : CTree} (h : t.Child a) {b : Bool} {x : BitStr}
+    (hp : a.lbl <+: b :: x) : (t.side b).1 = some a := by
+  obtain ⟨b', hb'⟩ := child_iff_side.mp h
+  have h1 := ((hwf.side hb').1.trans hp)
+  have : b' = b := by simpa using h1
+  exact this ▸ hb'
+
+/-- the walk from a well-formed root: either it stays at the root and no child's label is a prefix
+of the query, or it enters the child whose label is a prefix of the query -/
+theorem path_fst (c : Cfg) (t : CRoot) (hwf : t.WF) (x : BitStr) :
+    ((t.path c x).1 = none ∧ ∀ a, t.Child a → ¬ a.lbl <+: x) ∨
+    (∃ a, t.Child a ∧ a.lbl <+: x ∧ (t.path c x).1 = some (a.path c x).1) := by
+  cases x with
+  | nil =>
+    left
+    refine ⟨rfl, fun a ha hp => ?_⟩
+    obtain ⟨b, hb⟩ := child_iff_side.mp ha
+    have := ((hwf.side hb).1.trans hp).length_le
+    simp at this
+  | cons b x =>
+    cases hs : (t.side b).1 with
+    | none =>
+      left
+      refine ⟨by rw [path_cons_none c t b x hs], fun a ha hp => ?_⟩
+      rw [hwf.side_of_prefix ha hp] at hs
+      cases hs
+    | some a =>
+      by_cases hp : BitStr.isPrefix a.lbl (b :: x) = true
+      · right
+        refine ⟨a, child_iff_side.mpr ⟨b, hs⟩, (BitStr.isPrefix_iff _ _).mp hp, ?_⟩
+        rw [path_cons_some c t b x a hs, if_pos hp]
+      · left
+        refine ⟨by rw [path_cons_some c t b x a hs, if_neg hp], fun a' ha' hp' => ?_⟩
+        rw [hwf.side_of_prefix ha' hp'] at hs
+        cases hs
+        exact hp ((BitStr.isPrefix_iff _ _).mpr hp')
+
+/-- for a member the proof generated is about that leaf -/
+theorem lcpProof_leaf (c : Cfg) (t : CRoot) (hwf : t.WF) (lf : Leaf) (h : lf ∈ t.leaves) :
+    (t.lcpProof c lf.lbl).label = NodeLabel.ofBits lf.lbl ∧
+    (t.lcpProof c lf.lbl).hashVal = c.leafHash lf.value lf.ep := by
+  obtain ⟨a, ha, hl⟩ := mem_leaves.mp h
+  have hp := CTree.WF.leaf_prefix (hwf.child ha) hl
+  rcases path_fst c t hwf lf.lbl with ⟨-, hn⟩ | ⟨a', ha', hp', he⟩
+  · exact absurd hp (hn a ha)
+  · have : a' = a := by
+      cases hx : lf.lbl with
+      | nil =>
+        obtain ⟨b, hb⟩ := child_iff_side.mp ha
+        have := ((hwf.side hb).1.trans hp).length_le
+        simp [hx] at this
+      | cons b x =>
+        rw [hx] at hp hp'
+        have h1 := hwf.side_of_prefix ha hp
+        have h2 := hwf.side_of_prefix ha' hp'
+        rw [h1] at h2
+        exact (Option.some.inj h2).symm
+    subst this
+    rw [CTree.path_leaf c a' (hwf.child ha) lf hl] at he
+    unfold lcpProof
+    generalize t.path c lf.lbl = p at he
+    obtain ⟨p1, p2⟩ := p
+    simp only at he
+    subst he
+    exact ⟨rfl, rfl⟩
+
+end CRoot
+namespace CRoot
+
+/-- at most one child of a well-formed root has a label that is a prefix of a given string -/
+theorem WF.child_unique {t : CRoot} (hwf : t.WF) {a a' : CTree} (h : t.Child a) (h' : t.Child a')
+    {x : BitStr} (hp : a.lbl <+: x) (hp' : a'.lbl <+: x) : a = a' := by
+  cases x with
+  | nil =>
+    obtain ⟨b, hb⟩ := child_iff_side.mp h
+    have := ((hwf.side hb).1.trans hp).length_le
+    simp at this
+  | cons b x =>
+    have h1 := hwf.side_of_prefix h hp
+    have h2 := hwf.side_of_prefix h' hp'
+    rw [h1] at h2
+    exact Option.some.inj h2
+
+end CRoot
+
+/-! ### the non-membership verifier and generator, unfolded -/
+
+/-- the label `verify_nonmembership` recomputes for the anchor from the two children -/
+def lcpChildren (c : Cfg) (p : NonMembershipProof) : NodeLabel :=
+  if NodeLabel.lcp c.emptyLabel p.child0.label p.child1.label = c.emptyLabel then NodeLabel.root
+  else NodeLabel.lcp c.emptyLabel p.child0.label p.child1.label
+
+theorem nonMembershipShape_iff (c : Cfg) (p : NonMembershipProof) :
+    nonMembershipShape c p = true ↔
+      p.label ≠ p.child0.label ∧ p.label ≠ p.child1.label ∧
+      p.longestPrefix.isPrefixOf p.label = true ∧
+      p.longestPrefix = lcpChildren c p ∧
+      lcpChildren c p = p.longestPrefixMembershipProof.label ∧
+      c.parentHash p.child0.value p.child0.label p.child1.value p.child1.label
+        = p.longestPrefixMembershipProof.hashVal := by
+  unfold nonMembershipShape lcpChildren
+  by_cases h1 : p.label = p.child0.label
+  · simp [h1]
+  by_cases h2 : p.label = p.child1.label
+  · simp [h2]
+  by_cases h3 : p.longestPrefix.isPrefixOf p.label = true
+  · simp [h1, h2, h3]
+  · simp [h1, h2, h3]
+
+theorem childrenNotPrefix_iff (c : Cfg) (p : NonMembershipProof) :
+    childrenNotPrefix c p = true ↔
+      (p.child0.label ≠ c.emptyLabel → p.child0.label.isPrefixOf p.label ≠ true) ∧
+      (p.child1.label ≠ c.emptyLabel → p.child1.label.isPrefixOf p.label ≠ true) := by
+  simp [childrenNotPrefix, Decidable.or_iff_not_imp_left]
+
+namespace CRoot
+
+theorem genNonMembership_mp (c : Cfg) (t : CRoot) (x : BitStr) :
+    (t.genNonMembership c x).longestPrefixMembershipProof = t.lcpProof c x := by
+  unfold genNonMembership
+  split
+  rfl
+
+theorem genNonMembership_none (c : Cfg) (t : CRoot) (x : BitStr) (h : (t.path c x).1 = none) :
+    t.genNonMembership c x =
+      ⟨NodeLabel.ofBits x, NodeLabel.root, element c t.l, element c t.r,
+        ⟨NodeLabel.root, t.value c .withLeafEpoch, (t.path c x).2⟩⟩ := by
+  unfold genNonMembership lcpProof
+  generalize t.path c x = p at h
+  obtain ⟨p1, p2⟩ := p
+  simp only at h
+  subst h
+  rfl
+
+theorem genNonMembership_node (c : Cfg) (t : CRoot) (x : BitStr) {q : BitStr} {l r : CTree}
+    (h : (t.path c x).1 = some (.node q l r)) :
+    t.genNonMembership c x =
+      ⟨NodeLabel.ofBits x, NodeLabel.ofBits q, l.element c, r.element c,
+        ⟨NodeLabel.ofBits q, (CTree.node q l r).azks c .withLeafEpoch, (t.path c x).2⟩⟩ := by
+  unfold genNonMembership lcpProof
+  generalize t.path c x = p at h
+  obtain ⟨p1, p2⟩ := p
+  simp only at h
+  subst h
+  rfl
+
+end CRoot
+/-! ### the membership verifier, unfolded -/
+namespace CRoot
+
+theorem verifyMembership_lcpProof (c : Cfg) (t : CRoot) (x : BitStr) :
+    verifyMembership c (t.rootHash c) (t.lcpProof c x) = true := by
+  simp [verifyMembership, foldUp_lcpProof, rootHash]
+
+
+theorem verifyMembership_iff (c : Cfg) (hc : c.Lawful) (t : CRoot) (π : MembershipProof) :
+    verifyMembership c (t.rootHash c) π = true ↔
+      (foldUp c π).1 = t.value c .withLeafEpoch ∧ (foldUp c π).2 = NodeLabel.root := by
+  simp only [verifyMembership, CRoot.rootHash, Bool.and_eq_true, beq_iff_eq]
+  constructor
+  · rintro ⟨h1, h2⟩; exact ⟨hc.root_inj _ _ h1, h2⟩
+  · rintro ⟨h1, h2⟩; exact ⟨by rw [h1], h2⟩
+
+/-- an accepted proof is about the root, an empty child slot of the root, or a subtree -/
+theorem verifyMembership_cases (c : Cfg) (hc : c.Lawful) (t : CRoot) (π : MembershipProof)
+    (h : verifyMembership c (t.rootHash c) π = true) :
+    (π.label = NodeLabel.root ∧ π.hashVal = t.value c .withLeafEpoch) ∨
+      (∃ o, (o = t.l ∨ o = t.r) ∧
+        ((o = none ∧ π.label = c.emptyLabel ∧ π.hashVal = c.emptyNodeHash) ∨
+         (∃ a s, o = some a ∧ CTree.Sub s a ∧ π.label = NodeLabel.ofBits s.lbl ∧
+            π.hashVal = s.azks c .withLeafEpoch))) := by
+  obtain ⟨h1, h2⟩ := (verifyMembership_iff c hc t π).mp h
+  rcases CRoot.sound_cases c hc t π h1 with ⟨hn, hv⟩ | h'
+  · left
+    obtain ⟨lbl, v, sps⟩ := π
+    simp only at hn hv
+    subst hn
+    rw [foldUp_nil] at h2
+    exact ⟨h2, hv⟩
+  · exact Or.inr h'
+
+theorem not_empty_cases (t : CRoot) : (t.l = none ∧ t.r = none) ∨ (t.l ≠ none ∨ t.r ≠ none) := by
+  by_cases h1 : t.l = none
+  · by_cases h2 : t.r = none
+    · exact Or.inl ⟨h1, h2⟩
+    · exact Or.inr (Or.inr h2)
+  · exact Or.inr (Or.inl h1)
+
+end CRoot
+
+/-! ### well-formedness is decidable (used for the concrete witnesses) -/
+
+instance CTree.decWF : (a : CTree) → Decidable a.WF
+  | .leaf _ _ _ => isTrue trivial
+  | .node q l r =>
+    have := CTree.decWF l
+    have := CTree.decWF r
+    inferInstanceAs (Decidable ((q ++ [false]) <+: l.lbl ∧ (q ++ [true]) <+: r.lbl ∧ l.WF ∧ r.WF))
+
+namespace CRoot
+
+/-- well-formedness of one child slot of the root -/
+def slotWF (b : Bool) : Option CTree → Prop
+  | none => True
+  | some a => [b] <+: a.lbl ∧ a.WF
+
+instance (b : Bool) (o : Option CTree) : Decidable (slotWF b o) := by
+  cases o <;> unfold slotWF <;> infer_instance
+
+theorem WF_iff (t : CRoot) : t.WF ↔ slotWF false t.l ∧ slotWF true t.r := by
+  obtain ⟨tl, tr⟩ := t
+  cases tl <;> cases tr <;> simp [WF, slotWF]
+
+instance (t : CRoot) : Decidable t.WF := decidable_of_iff _ (WF_iff t).symm
+
+end CRoot
 
 end Akd
